@@ -7,6 +7,7 @@ table — any composition (compose, random-apply, patchwise, scheduled, pipeline
 any construction-time generators (= any call history before the injection, the only state being the cells).
 -/
 import KDVerif.Lemmas.RngFlow
+import KDVerif.Lemmas.C07Extra
 import KDVerif.Gen.RngTable
 
 namespace KDVerif.C07
@@ -47,5 +48,130 @@ example : conforms KDVerif.Gen.RngTable.table
       (.node "KDRandomApply" 2 (.cons "transform"
         (.node "PatchwiseTransform" 3 (.cons "transform" (.node "KDRandomCrop" 4 .nil) .nil)) .nil))
       (.cons "transforms" .leaf .nil))) = true := by decide +kernel
+
+/-! ## Gap theorems (audit round): replay / overwrite, equal seeds on independently built instances, draw sites -/
+
+/-- the nested composition used in the examples below, with construction-time generators `a b c d` -/
+def pipeline (a b c d : Nat) : T :=
+  .node "KDComposeTransform" a (.cons "transforms"
+    (.node "KDRandomApply" b (.cons "transform"
+      (.node "PatchwiseTransform" c (.cons "transform" (.node "KDRandomCrop" d .nil) .nil)) .nil))
+    (.cons "transforms" .leaf .nil))
+
+/-- **clause "re-injecting the seed replays the sequence" — a later injection completely overwrites an earlier
+    one**: the instance after `set_rng(h)` followed by `set_rng(g)` is, as a whole tree (every cell at every
+    depth), the instance after `set_rng(g)` alone; nothing of `h` survives. Holds for every instance tree, even
+    non-conforming ones. -/
+theorem reinjection_overwrites (g h : Nat) (t : T) :
+    setRng KDVerif.Gen.RngTable.table g (setRng KDVerif.Gen.RngTable.table h t) =
+      setRng KDVerif.Gen.RngTable.table g t :=
+  c07x_setRng_setRng _ g h t
+
+/-- **clause "re-injecting the seed replays the sequence" — idempotence**: injecting the same generator twice
+    is the same as injecting it once -/
+theorem reinjection_idempotent (g : Nat) (t : T) :
+    setRng KDVerif.Gen.RngTable.table g (setRng KDVerif.Gen.RngTable.table g t) =
+      setRng KDVerif.Gen.RngTable.table g t :=
+  c07x_setRng_setRng _ g g t
+
+/-- **clause "re-injecting the seed replays the sequence", quantifier "all call histories before the seed is
+    injected"**: whatever generators `hs` were injected in between (in the model the cells are the only state a
+    call history can leave behind), re-injecting `g` restores exactly the instance the first injection of `g`
+    produced — hence the same sequence of generator reads is replayed -/
+theorem reinjection_replays_after_any_history (g : Nat) (hs : List Nat) (t : T) :
+    setRng KDVerif.Gen.RngTable.table g
+        (injectAll KDVerif.Gen.RngTable.table hs (setRng KDVerif.Gen.RngTable.table g t)) =
+      setRng KDVerif.Gen.RngTable.table g t := by
+  rw [c07x_setRng_injectAll, c07x_setRng_setRng]
+
+/-- **clause "re-injecting ..." at the level of drawing cells**: after `set_rng(h)` then `set_rng(g)` on an
+    instance built from the table, every cell any member can draw from holds `g` (none holds `h`, none a
+    construction-time generator) -/
+theorem reinjection_reaches_every_drawing_cell (g h : Nat) (t : T)
+    (hc : conforms KDVerif.Gen.RngTable.table t = true) :
+    ∀ c ∈ draws KDVerif.Gen.RngTable.table
+        (setRng KDVerif.Gen.RngTable.table g (setRng KDVerif.Gen.RngTable.table h t)), c = g := by
+  rw [reinjection_overwrites]
+  exact setRng_reaches_every_drawing_cell g t hc
+
+example : setRng KDVerif.Gen.RngTable.table 7 (injectAll KDVerif.Gen.RngTable.table [8, 9]
+      (setRng KDVerif.Gen.RngTable.table 7 (pipeline 1 2 3 4))) = pipeline 1 7 3 7 := by rfl
+
+/-- **clause "two independently constructed instances given equal seeds agree" — closed form**: after
+    `set_rng(g)` the list of drawing cells (pre-order over the whole composition) is `g` repeated once per drawing
+    cell of the *skeleton* `erase t` — a function of (shape, g) only; construction-time cell contents do not
+    occur in it. Hypothesis: the instance is built from the table (the property's domain). -/
+theorem cells_after_injection_closed_form (g : Nat) (t : T)
+    (hc : conforms KDVerif.Gen.RngTable.table t = true) :
+    draws KDVerif.Gen.RngTable.table (setRng KDVerif.Gen.RngTable.table g t) =
+      List.replicate (draws KDVerif.Gen.RngTable.table (erase t)).length g :=
+  c07x_draws_setRng_closed _ table_ok g t hc
+
+/-- **clause "two independently constructed instances given equal seeds agree"**: two instances with the same
+    skeleton (same classes, slots, shape: `erase t₁ = erase t₂`) and arbitrary, different pre-existing cell
+    contents have, after `set_rng(g)` on both, position by position the same generator in every drawing cell.
+    (Conformance of `t₂` follows from that of `t₁`, it depends on the skeleton only.) -/
+theorem equal_seeds_equal_cells (g : Nat) (t₁ t₂ : T) (hshape : erase t₁ = erase t₂)
+    (h₁ : conforms KDVerif.Gen.RngTable.table t₁ = true) :
+    draws KDVerif.Gen.RngTable.table (setRng KDVerif.Gen.RngTable.table g t₁) =
+      draws KDVerif.Gen.RngTable.table (setRng KDVerif.Gen.RngTable.table g t₂) := by
+  have h₂ : conforms KDVerif.Gen.RngTable.table t₂ = true := by
+    rw [c07x_conforms_of_erase_eq _ t₁ t₂ hshape]; exact h₁
+  rw [cells_after_injection_closed_form g t₁ h₁, cells_after_injection_closed_form g t₂ h₂, hshape]
+
+/-- the same with arbitrary, different injection histories on the two instances before the seed is injected -/
+theorem equal_seeds_equal_cells_after_any_histories (g : Nat) (hs₁ hs₂ : List Nat) (t₁ t₂ : T)
+    (hshape : erase t₁ = erase t₂) (h₁ : conforms KDVerif.Gen.RngTable.table t₁ = true) :
+    draws KDVerif.Gen.RngTable.table
+        (setRng KDVerif.Gen.RngTable.table g (injectAll KDVerif.Gen.RngTable.table hs₁ t₁)) =
+      draws KDVerif.Gen.RngTable.table
+        (setRng KDVerif.Gen.RngTable.table g (injectAll KDVerif.Gen.RngTable.table hs₂ t₂)) := by
+  rw [c07x_setRng_injectAll, c07x_setRng_injectAll]
+  exact equal_seeds_equal_cells g t₁ t₂ hshape h₁
+
+example : erase (pipeline 1 2 3 4) = erase (pipeline 50 60 70 80) := by rfl
+example : conforms KDVerif.Gen.RngTable.table (pipeline 1 2 3 4) = true ∧
+    draws KDVerif.Gen.RngTable.table (pipeline 1 2 3 4) = [2, 4] ∧
+    draws KDVerif.Gen.RngTable.table (pipeline 50 60 70 80) = [60, 80] ∧
+    draws KDVerif.Gen.RngTable.table (setRng KDVerif.Gen.RngTable.table 7 (pipeline 50 60 70 80)) = [7, 7] := by
+  decide +kernel
+
+/-- **clause "the process-global NumPy / Torch / Python random state neither influences the result nor is
+    consumed"**, over instance trees: in every instance built from the table, after `set_rng(g)` *every draw site*
+    of every member (`drawSources` lists one entry per class flagged `globalDraw` and one per owned cell) reads
+    from a cell holding `g`, i.e. a cell that `set_rng` wrote -/
+theorem draw_sites_read_injected_cells (g : Nat) (t : T)
+    (hc : conforms KDVerif.Gen.RngTable.table t = true) :
+    ∀ s ∈ drawSources KDVerif.Gen.RngTable.table (setRng KDVerif.Gen.RngTable.table g t), s = Source.cell g := by
+  intro s hs
+  have hc' : conforms KDVerif.Gen.RngTable.table (setRng KDVerif.Gen.RngTable.table g t) = true := by
+    rw [c07x_conforms_setRng]; exact hc
+  rw [c07x_drawSources_eq_map _ table_ok _ hc', List.mem_map] at hs
+  obtain ⟨c, hcm, rfl⟩ := hs
+  rw [setRng_reaches_every_drawing_cell g t hc c hcm]
+
+/-- no draw site of an instance built from the table reads the process-global state — before or after an
+    injection -/
+theorem global_state_never_read (t : T) (hc : conforms KDVerif.Gen.RngTable.table t = true) :
+    Source.global ∉ drawSources KDVerif.Gen.RngTable.table t := by
+  rw [c07x_drawSources_eq_map _ table_ok _ hc, List.mem_map]
+  rintro ⟨c, _, h⟩
+  exact Source.noConfusion h
+
+/-- the cell-reading draw sites are exactly the cells `draws` lists (ties `drawSources` to the model the
+    drivers run) -/
+theorem draw_sites_cells_are_draws (t : T) :
+    (drawSources KDVerif.Gen.RngTable.table t).filterMap Source.cell? = draws KDVerif.Gen.RngTable.table t :=
+  c07x_drawSources_cells _ t
+
+/-- the two theorems above really depend on the generated `globalDraw` flags: for any table, an instance of a
+    class whose row is flagged reads the global state, injection or not -/
+theorem globalDraw_flag_is_read (tb : Table) (cls : String) (r : Row) (hl : lookup tb cls = some r)
+    (hg : r.globalDraw = true) (g cell : Nat) (kids : Kids) :
+    Source.global ∈ drawSources tb (setRng tb g (.node cls cell kids)) := by
+  simp [setRng, drawSources, hl, hg]
+
+example : drawSources KDVerif.Gen.RngTable.table (setRng KDVerif.Gen.RngTable.table 7 (pipeline 1 2 3 4)) =
+    [Source.cell 7, Source.cell 7] := by decide +kernel
 
 end KDVerif.C07
